@@ -328,7 +328,7 @@ async fn resolve_hostname_to_ip<'a>(
         // immediately replaced in the loop
         qtype: QueryType::AXFR,
     };
-    for rtype in rtypes {
+    for (i, rtype) in rtypes.iter().copied().enumerate() {
         question.qtype = QueryType::Record(rtype);
         #[cfg(resolved_verif)]
         simseam::trace::address_lookup(&question, resolve_locally);
@@ -343,6 +343,16 @@ async fn resolve_hostname_to_ip<'a>(
         } else if let Ok(result) = resolve_recursive_notimeout(context, &question).await {
             let address = get_ip(&result.rrs(), &question.name, rtype);
             if address.is_some() {
+                // looking up an address of the other family may have brought one
+                // of a family we prefer along with it (a referral's glue, after
+                // the lookup for that family itself had failed): use that one
+                for preferred in &rtypes[..i] {
+                    if let Some(preferred_address) =
+                        local_address(context, &question.name, *preferred)
+                    {
+                        return Some(preferred_address);
+                    }
+                }
                 return address;
             }
         }
@@ -424,19 +434,27 @@ fn has_local_address(context: &mut RecursiveContext<'_>, hostname: &DomainName) 
         ProtocolMode::OnlyV6 => &[RecordType::AAAA],
         ProtocolMode::PreferV4 | ProtocolMode::PreferV6 => &[RecordType::A, RecordType::AAAA],
     };
-    rtypes.iter().any(|rtype| {
-        let question = Question {
-            name: hostname.clone(),
-            qtype: QueryType::Record(*rtype),
-            qclass: QueryClass::Record(RecordClass::IN),
-        };
-        match resolve_local(context, &question) {
-            Ok(LocalResolutionResult::Done { resolved }) => {
-                get_ip(&resolved.rrs(), hostname, *rtype).is_some()
-            }
-            _ => false,
-        }
-    })
+    rtypes
+        .iter()
+        .any(|rtype| local_address(context, hostname, *rtype).is_some())
+}
+
+/// The address of the given family which zones or cache hold for a
+/// nameserver, if any.
+fn local_address(
+    context: &mut RecursiveContext<'_>,
+    hostname: &DomainName,
+    rtype: RecordType,
+) -> Option<IpAddr> {
+    let question = Question {
+        name: hostname.clone(),
+        qtype: QueryType::Record(rtype),
+        qclass: QueryClass::Record(RecordClass::IN),
+    };
+    match resolve_local(context, &question) {
+        Ok(LocalResolutionResult::Done { resolved }) => get_ip(&resolved.rrs(), hostname, rtype),
+        _ => None,
+    }
 }
 
 /// Validate a nameserver response against the question by only keeping valid
